@@ -23,13 +23,13 @@ TLM = "circuit/transmission_line_model.py"
 # ---------------------------------------------------------------- C01
 V("c01-series-assign", "C01", SER, "            result += Z\n", "            result = Z\n", "fire", "Series._impedance")
 V("c01-parallel-noinv", "C01", PAR, "            for Z in path_impedances:\n                results += 1 / Z\n\n            results = 1 / results",
-  "            for Z in path_impedances:\n                results += Z\n\n            results = 1 / results", "fire", "Parallel._impedance:step")
-V("c01-parallel-result", "C01", PAR, "                results += 1 / Z\n\n            results = 1 / results\n", "                results += 1 / Z\n\n", "fire", "Parallel._impedance:result")
-V("c01-open-not-skipped", "C01", PAR, "                num_open_paths += 1\n                continue\n", "                num_open_paths += 1\n", "fire", "open-branch")
+  "            for Z in path_impedances:\n                results += Z\n\n            results = 1 / results", "fire", "Parallel._impedance:law")
+V("c01-parallel-result", "C01", PAR, "                results += 1 / Z\n\n            results = 1 / results\n", "                results += 1 / Z\n\n", "fire", "Parallel._impedance:law")
+V("c01-benign-open-not-skipped", "C01", PAR, "                num_open_paths += 1\n                continue\n", "                num_open_paths += 1\n", "silent")  # 1/inf = 0: an all-open child that is summed contributes nothing
 V("c01-dispatch-swap", "C01", SER,
   "            if isinstance(elem_con, Container):\n                Z = elem_con._impedance(\n                    f,\n                    **elem_con.get_values(),\n                    **elem_con.get_subcircuits(),\n                )\n            elif isinstance(elem_con, Element):\n                Z = elem_con._impedance(\n                    f,\n                    **elem_con.get_values(),\n                )\n",
   "            if isinstance(elem_con, Element):\n                Z = elem_con._impedance(\n                    f,\n                    **elem_con.get_values(),\n                )\n            elif isinstance(elem_con, Container):\n                Z = elem_con._impedance(\n                    f,\n                    **elem_con.get_values(),\n                    **elem_con.get_subcircuits(),\n                )\n",
-  "fire", "Series._impedance:order")
+  "fire", "Series._impedance:law")
 V("c01-sympy-parallel-sum", "C01", PAR, "                expr += 1 / element.to_sympy(\n                    substitute=substitute, identifier=identifiers[element]\n                )",
   "                expr += element.to_sympy(\n                    substitute=substitute, identifier=identifiers[element]\n                )", "fire", "Parallel.to_sympy:step")
 V("c01-limit-set", "C01", BASE, "                where(f == 0.0)[0],\n                where(isinf(f))[0],", "                where(f == 0.0)[0],", "fire", "limit-set")
@@ -326,3 +326,7 @@ VM("c06-benign-separators-constant", "C06", [("data/formats/csv.py", "def parse_
    ("data/formats/csv.py", "        separators: List[str] = [\n            \"\\t\",\n            \" \",\n            \";\",\n            \",\",\n        ]\n", "        separators: List[str] = list(FALLBACK_SEPARATORS)\n")], "silent")
 VM("c06-separators-consumed", "C06", [("data/formats/csv.py", "def parse_csv(", "separators = [\"\\t\", \" \", \";\", \",\"]\n\n\ndef parse_csv("),
    ("data/formats/csv.py", "        separators: List[str] = [\n            \"\\t\",\n            \" \",\n            \";\",\n            \",\",\n        ]\n", "")], "fire", "parse_csv:separators")
+
+V("c01-open-counted-as-short", "C01", PAR, "            inf_indices: Indices = where(isinf(Z))[0]", "            inf_indices: Indices = where(isinf(Z) | (Z == 0.0))[0]", "fire", "Parallel._impedance:law")
+V("c01-short-not-zero", "C01", PAR, "                shorted[zero_indices] = True\n", "                pass\n", "fire", "Parallel._impedance:law")
+V("c01-all-open-not-refused", "C01", PAR, "        elif num_open_paths == len(self._elements):\n            raise InfiniteImpedance()\n", "", "fire", "Parallel._impedance:law")
